@@ -49,7 +49,8 @@ class ViewSection(Micheline, prim='view', args_len=4):
         if code.prim in ('CREATE_CONTRACT', 'SET_DELEGATE', 'TRANSFER_TOKENS') and not lambda_:
             raise MichelsonRuntimeError('view', f'{code.prim} is not allowed in views')
 
-        lambda_ |= code.prim in ('LAMBDA', 'lambda')
+        # NOTE: instructions inside pushed data can only belong to a lambda literal
+        lambda_ |= code.prim in ('LAMBDA', 'LAMBDA_REC', 'PUSH')
         for arg in getattr(code, 'args', ()):
             ViewSection.check_code(arg, lambda_)
 
